@@ -180,6 +180,13 @@ def rand_spec(rng, opts=None):
     for mi, ms in enumerate(methods):
         if ms.get("ready_on_run") is not None:
             rels.append(["before", ["m", ms["ready_on_run"]], ["m", mi], False])
+    if rng.random() < opts.get("p_mbefore", 0.0):
+        # a plain ordering between two methods (as Forwarder/Pipe declare between write and read), no readiness coupling
+        grouped = {mi for g in mgroups for alt in g[1] for mi in alt}
+        cand = [mi for mi, ms in enumerate(methods) if ms.get("nested_in") is None and mi not in grouped]
+        if len(cand) >= 2:
+            a, b = sorted(rng.sample(cand, 2))
+            rels.insert(0, ["before", ["m", a], ["m", b], False])
     return dict(methods=methods, transactions=trs, relations=rels, groups=groups, group_module=group_module, mgroups=mgroups,
                 witness=bool(opts.get("witness")))
 
